@@ -274,6 +274,50 @@ pub fn big_output_strategy() -> BoxedStrategy<Case2> {
         .boxed()
 }
 
+/// a loop of fewer than 100 rounds whose body writes > 100 bytes per round: everything is produced inside ONE speculatively
+/// executed top-level command (the jump closing the loop), i.e. inside one capture buffer of the optimiser (> 4 KiB, > 8 KiB)
+fn loop_output_strategy() -> BoxedStrategy<Case2> {
+    (prop::sample::select(vec![35usize, 70, 90, 99]), prop::sample::select(vec![(233usize, 2usize), (2048, 3), (0x1F600, 4)]), 20usize..=40, 1usize..=2, any::<bool>())
+        .prop_map(|(rounds, (cp, _len), k, target, then_read)| {
+            use crate::refparse::RCmd;
+            let ps = |a: &str| crate::refparse::parse_shape(a).unwrap();
+            let total = 2 * rounds + 2;
+            let h = (1..=64usize).rev().find(|h| total % h == 0).unwrap_or(1);
+            let (a, b) = (1..=64usize).rev().find(|a| cp % a == 0 && cp / a <= 3000).map(|a| (a, cp / a)).unwrap_or((1, cp.min(3000)));
+            let mut cmds = vec![RCmd::new(0, h, total / h), RCmd::with_area(1, 1, 3, ps("♥"))];
+            cmds.push(RCmd::new(0, a, b));
+            cmds.push(RCmd::new(5, k - 1, 3));
+            for _ in 0..k {
+                cmds.push(RCmd::new(1, 1, target));
+            }
+            cmds.push(RCmd::new(0, 1, 1));
+            cmds.push(RCmd::new(3, 1, 3));
+            cmds.push(RCmd::new(1, 3, 3));
+            cmds.push(RCmd::new(5, 1, 3));
+            cmds.push(RCmd::with_area(1, 1, 3, ps("?♥")));
+            if then_read {
+                cmds.push(RCmd::new(5, 1, 0));
+                cmds.push(RCmd::new(1, 1, 1));
+            }
+            Case2(ProgCase { cmds, stdin: "xy\n".to_string() })
+        })
+        .boxed()
+}
+
+/// the program *ends* with a 흑 that selects a stack above 3 and jumps back through a label; another stack above 3 is only pushed to;
+/// the code jumped to pops from the newly selected stack and prints (never ends: compared under a step budget)
+pub fn idiom_final_select(s: usize, t: usize, heart: char, printer: u8) -> Vec<crate::refparse::RCmd> {
+    use crate::refparse::RCmd;
+    let ps = |a: &str| crate::refparse::parse_shape(a).unwrap();
+    let hs = heart.to_string();
+    let p = match printer % 3 {
+        0 => RCmd::new(3, 1, 1),
+        1 => RCmd::new(1, 1, 1),
+        _ => RCmd::new(3, 1, 2),
+    };
+    vec![RCmd::new(0, 1, 1), RCmd::new(0, 1, 2), RCmd::with_area(0, s, 1, ps(&hs)), RCmd::new(1, 1, t), p, RCmd::with_area(5, 1, s, ps(&hs))]
+}
+
 pub fn run(ctx: &Ctx, out: &mut Outcome) {
     let t = ctx.tier;
     let bin = ctx.hyeong_bin();
@@ -285,6 +329,31 @@ pub fn run(ctx: &Ctx, out: &mut Outcome) {
         let (bin, hv, scratch) = (bin.clone(), hv.clone(), scratch.clone());
         let cfg = Cfg { budget: 400_000, child_steps: 400_000 };
         search::<Case2>(ctx, out, "big-output", t.pick(48, 400), &big_output_strategy, &move |c, st| check(c, st, &cfg, &bin, &hv, &scratch));
+    }
+    {
+        let (bin, hv, scratch) = (bin.clone(), hv.clone(), scratch.clone());
+        let cfg = Cfg { budget: 400_000, child_steps: 400_000 };
+        search::<Case2>(ctx, out, "loop-output", t.pick(48, 400), &loop_output_strategy, &move |c, st| check(c, st, &cfg, &bin, &hv, &scratch));
+    }
+    {
+        // programs ending in a selecting 흑 that jumps back
+        let (bin, hv, scratch) = (bin.clone(), hv.clone(), scratch.clone());
+        let cfg = Cfg { budget: t.pick(3000, 10000), child_steps: t.pick(4000, 20000) };
+        search::<Case2>(
+            ctx,
+            out,
+            "final-select",
+            t.pick(600, 6_000),
+            &|| {
+                (program_with_jumps(&profile(12)), 4usize..=8, 4usize..=8, prop::sample::select(vec!['♥', '💖', '💚']), 0u8..3, stdin_text())
+                    .prop_map(|(mut cmds, s, t, h, p, stdin)| {
+                        cmds.extend(idiom_final_select(s, if t == s { t + 1 } else { t }, h, p));
+                        Case2(ProgCase { cmds, stdin })
+                    })
+                    .boxed()
+            },
+            &move |c, st| check(c, st, &cfg, &bin, &hv, &scratch),
+        );
     }
     search::<Case2>(ctx, out, "general", t.pick(12_000, 70_000), &move || prog_case(&profile(max_len)).prop_map(Case2).boxed(), &move |c, st| check(c, st, &cfg, &bin, &hv, &scratch));
 }
